@@ -483,13 +483,14 @@ UNITS.append(prologue)
 # output (the multiprocess tail writes the success marker right after it); the parts are removed only after that
 def mb_setup(eng):
     eng.monitor = None
-    eng.ghost = {'merged': False, 'indexed': False, 'removed_before_done': False}
+    eng.ghost = {'merged': False, 'indexed': False, 'removed_before_done': False, 'merged_inputs': []}
     eng.spec_env['GHOST'] = eng.ghost
     E = externals.EXTRA
 
     def merge(e, a, k, n):
         fault(e, 'merge')
         e.ghost['merged'] = True
+        e.ghost['merged_inputs'] = [x for x in a[1:] if not str(x).startswith('-')]
 
     def index(e, a, k, n):
         fault(e, 'index')
@@ -501,6 +502,7 @@ def mb_setup(eng):
             e.ghost['indexed'] = bool(e.ghost['merged'])
         else:
             e.ghost['merged'] = True
+            e.ghost['merged_inputs'] = [a[0]]
 
     def remove(e, a, k, n):
         if not (e.ghost['merged'] and e.ghost['indexed']):
@@ -509,6 +511,21 @@ def mb_setup(eng):
     E['pysam.merge'], E['pysam.index'], E['os.remove'] = merge, index, remove
     E['shutil.move'] = move
     E['shutil.which'] = lambda e, a, k, n: None             # no samtools binary: pysam.merge
+
+    # a part may hold any number of records - none, only records without coordinate (count() == 0), ...
+    def bam(e, a, k, n):
+        o = Obj('PartBam', {'path': a[0]})
+        o.vc_immutable = True
+        return o
+
+    def count(e, o, *a, **k):
+        c = fresh(INT, 'records_with_coordinate')
+        e.assume(c.z >= 0)
+        return c
+    stubs.STUBS['PartBam'] = {'methods': {'__enter__': lambda e, o: o, '__exit__': lambda e, o, *a: None, 'count': count,
+                                          'close': lambda e, o: None},
+                              'props': {'mapped': lambda e, o: count(e, o), 'unmapped': lambda e, o: count(e, o)}, 'setters': {}}
+    E['pysam.AlignmentFile'] = bam
     E['os.path.exists'] = lambda e, a, k, n: True
     for q in ('singlecellmultiomics.bamProcessing.bamFunctions.move', 'singlecellmultiomics.bamProcessing.bamFunctions.which'):
         pass
@@ -517,14 +534,65 @@ def mb_setup(eng):
 merge_bams = Contract(
     PROP, FB + '::merge_bams', name='merge_bams',
     params={'bams': ('const', ['part1.bam', 'part2.bam']), 'output_path': ('const', 'out.bam'), 'threads': ('const', 4)},
-    cases=[{}, {'bams': ('const', ['part1.bam'])}],
+    cases=[{}, {'bams': ('const', ['part1.bam'])}, {'bams': ('const', ['part1.bam', 'part2.bam', 'part3.bam'])}],
     setup=mb_setup,
     ensures={
         'returns_only_with_a_merged_and_indexed_output': 'GHOST["merged"] and GHOST["indexed"]',
+        # conservation: whatever a part holds (possibly only records without coordinate), it is one of the merged inputs
+        'every_part_is_merged': 'GHOST["merged_inputs"] == list(BAMS0)',
         'parts_are_removed_only_after_that': 'not GHOST["removed_before_done"]',
     },
     raises={'Exception': 'True'},
     assumptions=['pysam.merge / pysam.index / shutil.move / os.remove may fail at every call; no samtools binary on the PATH (the '
                  'pysam.merge branch); the parts are indexed'],
 )
+def merge_bams_replay(inputs, clause):
+    """real indexed part files - one with placed records, one holding only records without coordinate, one empty - through the
+    real merge_bams: the merged file must hold every record of every part"""
+    import os
+    import shutil
+    import tempfile
+    import pysam
+    from pyvc.contract import import_real
+    fn = import_real(FB, 'merge_bams')
+    n_parts = len(inputs.get('bams') or ['a', 'b'])
+    d = tempfile.mkdtemp(prefix='c20m_')
+    try:
+        header = pysam.AlignmentHeader.from_dict({'HD': {'VN': '1.6', 'SO': 'coordinate'}, 'SQ': [{'SN': 'chr1', 'LN': 1000}]})
+        contents = [['placed1', 'placed2'], ['*nocoord1', '*nocoord2'], []][:max(n_parts, 1)]
+        paths, names = [], []
+        for i, recs in enumerate(contents):
+            p = os.path.join(d, 'part%d.bam' % i)
+            with pysam.AlignmentFile(p, 'wb', header=header) as o:
+                for j, nm in enumerate(recs):
+                    a = pysam.AlignedSegment(header)
+                    a.query_name, a.query_sequence = nm, 'ACGT'
+                    a.query_qualities = pysam.qualitystring_to_array('IIII')
+                    if nm.startswith('*'):
+                        a.flag = 4
+                    else:
+                        a.reference_id, a.reference_start, a.cigartuples, a.mapping_quality, a.flag = 0, 10 + j, [(0, 4)], 60, 0
+                    o.write(a)
+                    names.append(nm)
+            pysam.index(p)
+            paths.append(p)
+        out = os.path.join(d, 'merged.bam')
+        try:
+            fn(paths, out, 1)
+            with pysam.AlignmentFile(out) as f:
+                got = sorted(r.query_name for r in f.fetch(until_eof=True))
+            obs = {'outcome': 'return', 'value': got, 'expected': sorted(names), 'parts': contents}
+            ok = got == sorted(names) and os.path.exists(out + '.bai')
+        except Exception as e:      # noqa: BLE001
+            obs = {'outcome': 'raise', 'value': [type(e).__name__, str(e)[:200]], 'parts': contents}
+            ok = False
+        if not ok:
+            return {'status': 'confirmed', 'observed': obs, 'failed': [{'clause': clause}]}
+        return {'status': 'not-reproduced', 'observed': obs}
+    finally:
+        shutil.rmtree(d, ignore_errors=True)
+
+
+merge_bams.replay = merge_bams_replay
+merge_bams.pre_state = lambda eng, fr: eng.spec_env.update({'BAMS0': list(fr.env['bams'])})
 UNITS.append(merge_bams)
